@@ -11,8 +11,8 @@ import re
 HEADER = 'log = None\n'
 
 # --------------------------------------------------------------------------------------------- value pools (expressions)
-OBJ = ['None', '1', "'a'", '(1, 2)', '[1]', '2.5', 'I(5)', "S('ab')", "b'x'", 'Unhashable()', 'True', '0']
-KEY = ['1', "'a'", '(1, 2)', 'None', '2.5', 'I(1)', "S('a')", '[1]', 'Unhashable()', 'HashRaises()', 'EqRaises(1)', '1.0',
+OBJ = ['None', '1', "'a'", '(1, 2)', '[1]', '2.5', 'I(5)', "S('ab')", "b'x'", 'UH()', 'True', '0']
+KEY = ['1', "'a'", '(1, 2)', 'None', '2.5', 'I(1)', "S('a')", '[1]', 'UH()', 'HashRaises()', 'EqRaises(1)', '1.0',
        'True', '99', "'zz'", '(1, [2])', '{}']
 INDEX = ['0', '1', '-1', '2', '5', '-5', '2**31', '-2**31-1', '2**63-1', '2**63', '-2**63', '-2**63-1', '2**64', '-2**64',
          'None', 'Idx(1)', 'I(1)', 'True', '1.0', 'IntOnly(1)', "'a'", 'IdxRaises()', 'Idx(-1)', 'Idx(2**70)', 'IdxBad()', '3']
@@ -91,6 +91,10 @@ RECV = {'list': (LISTS, LISTS_X), 'tuple': (TUPLES, ['T((1, 2))', '[1]', 'None']
 SETUP = r'''
 from collections import OrderedDict as OD, defaultdict
 from types import MappingProxyType as MP
+class UH(Unhashable):
+    """unhashable object with an address-free repr (results of str()/repr()/%s are compared)"""
+    def __repr__(self): return 'UH()'
+    def __vsig__(self): return 'UH'
 class Appender:
     def __init__(self): self.items = []
     def append(self, x): self.items.append(('Appender.append', x)); return 'appended'
@@ -191,24 +195,24 @@ SPECS = [
     S('abs-long', 'abs(x)', None, decl='long x', recv_pool=['0', '5', '-5', '2**63-1', '-2**63+1'], helper=r'labs|__Pyx_abs_long'),
     S('abs-double', 'abs(x)', None, decl='double x', recv_pool=['0.0', '-0.0', '2.5', '-2.5', 'inf', '-inf', 'nan'], helper=r'fabs'),
     S('abs-int', 'abs(x)', None, decl='int x', recv_pool=['0', '5', '-5', '2**31-1', '-2**31+1'], helper=r'abs|__Pyx_abs_int'),
-    S('min2', 'min(x, a)', 'nums', ['nums'], helper=r'PyObject_RichCompare'),
-    S('max2', 'max(x, a)', 'nums', ['nums'], helper=r'PyObject_RichCompare'),
-    S('min3', 'min(x, a, b)', 'nums', ['nums', 'nums'], helper=r'PyObject_RichCompare'),
-    S('max3', 'max(x, a, b)', 'nums', ['nums', 'nums'], helper=r'PyObject_RichCompare'),
-    S('max4', 'max(x, a, b, 3)', 'nums', ['nums', 'nums'], helper=r'PyObject_RichCompare'),
-    S('min4', 'min(x, 2, a, b)', 'nums', ['nums', 'nums'], helper=r'PyObject_RichCompare'),
-    S('min2-log', 'min(log(x), log(a))', 'nums', ['nums'], helper=r'PyObject_RichCompare'),
-    S('max3-log', 'max(log(x), log(a), log(b))', 'nums', ['nums', 'nums'], helper=r'PyObject_RichCompare'),
+    S('min2', 'min(x, a)', 'nums', ['nums'], helper=r'__Pyx_PyObject_CompareBool(?:Lt|Gt)'),
+    S('max2', 'max(x, a)', 'nums', ['nums'], helper=r'__Pyx_PyObject_CompareBool(?:Lt|Gt)'),
+    S('min3', 'min(x, a, b)', 'nums', ['nums', 'nums'], helper=r'__Pyx_PyObject_CompareBool(?:Lt|Gt)'),
+    S('max3', 'max(x, a, b)', 'nums', ['nums', 'nums'], helper=r'__Pyx_PyObject_CompareBool(?:Lt|Gt)'),
+    S('max4', 'max(x, a, b, 3)', 'nums', ['nums', 'nums'], helper=r'__Pyx_PyObject_CompareBool(?:Lt|Gt)'),
+    S('min4', 'min(x, 2, a, b)', 'nums', ['nums', 'nums'], helper=r'__Pyx_PyObject_CompareBool(?:Lt|Gt)'),
+    S('min2-log', 'min(log(x), log(a))', 'nums', ['nums'], helper=r'__Pyx_PyObject_CompareBool(?:Lt|Gt)'),
+    S('max3-log', 'max(log(x), log(a), log(b))', 'nums', ['nums', 'nums'], helper=r'__Pyx_PyObject_CompareBool(?:Lt|Gt)'),
     S('max2-clong', 'max(x, a)', None, ['nums'], decl='long x', recv_pool=['0', '5', '-5', '2**63-1', '-2**63'], helper=r''),
     S('min-iter', 'min(x)', 'iter', helper=None),
     S('max-iter-default', 'max(x, default=a)', 'iter', ['obj'], helper=None),
-    S('sum-genexpr', 'sum(v * 2 for v in x)', 'iter', helper=r'PyNumber_InPlaceAdd|__Pyx_PyLong_AddObjC|PyNumber_Add'),
-    S('sum-genexpr-start', 'sum((v for v in x), a)', 'iter', ['nums'], helper=r'PyNumber_InPlaceAdd|PyNumber_Add'),
+    S('sum-genexpr', 'sum(v * 2 for v in x)', 'iter', helper=None),
+    S('sum-genexpr-start', 'sum((v for v in x), a)', 'iter', ['nums'], helper=None),
     S('sum-list', 'sum(x)', 'iter', helper=None),
-    S('any-genexpr', 'any(v for v in x)', 'iter', helper=r'__Pyx_PyObject_IsTrue'),
-    S('all-genexpr', 'all(v for v in x)', 'iter', helper=r'__Pyx_PyObject_IsTrue'),
-    S('any-genexpr-cond', 'any(v == a for v in x)', 'iter', ['obj'], helper=r'__Pyx_PyObject_IsTrue|PyObject_RichCompare'),
-    S('all-genexpr-log', 'all(log(v) for v in x)', 'iter', helper=r'__Pyx_PyObject_IsTrue'),
+    S('any-genexpr', 'any(v for v in x)', 'iter', helper=r'__Pyx_Generator_GetInlinedResult'),
+    S('all-genexpr', 'all(v for v in x)', 'iter', helper=r'__Pyx_Generator_GetInlinedResult'),
+    S('any-genexpr-cond', 'any(v == a for v in x)', 'iter', ['obj'], helper=r'__Pyx_Generator_GetInlinedResult'),
+    S('all-genexpr-log', 'all(log(v) for v in x)', 'iter', helper=r'__Pyx_Generator_GetInlinedResult'),
     S('sorted', 'sorted(x)', 'iter', helper=r'PyList_Sort'),
     S('sorted-genexpr', 'sorted(v for v in x)', 'iter', helper=r'PyList_Sort'),
     S('sorted-key', 'sorted(x, key=a)', 'iter', ['callkey'], helper=None),
@@ -246,14 +250,14 @@ SPECS = [
     S('tuple-list', 'tuple(x)', 'list', helper=r'PyList_AsTuple', lit='[1, 2]'),
     S('set', 'set(x)', 'iter', helper=r'PySet_New'),
     S('frozenset', 'frozenset(x)', 'iter', helper=r'__Pyx_PyFrozenSet_New'),
-    S('frozenset0', 'frozenset()', None, recv_pool=['0'], decl='x', helper=r'__Pyx_PyFrozenSet_New'),
+    S('frozenset0', 'frozenset()', None, recv_pool=['0'], decl='x', helper=r''),
     S('dict', 'dict(x)', 'iter', helper=None),
     S('dict-dict', 'dict(x)', 'dict', helper=r'PyDict_Copy', lit='{1: 2}'),
     S('dict-kw', 'dict(p=x, q=a)', 'obj', ['obj'], helper=r'PyDict_SetItem|__Pyx_PyDict_NewPresized'),
-    S('list-genexpr', 'list(v for v in x)', 'iter', helper=r'__Pyx_ListComp_Append'),
-    S('set-genexpr', 'set(v for v in x)', 'iter', helper=r'PySet_Add'),
-    S('tuple-genexpr', 'tuple(v * 2 for v in x)', 'iter', helper=r'PyList_AsTuple|__Pyx_ListComp_Append|PySequence_Tuple'),
-    S('dict-genexpr', 'dict((v, v) for v in x)', 'iter', helper=r'PyDict_SetItem'),
+    S('list-genexpr', 'list(v for v in x)', 'iter', helper=r'__Pyx_Generator_GetInlinedResult'),
+    S('set-genexpr', 'set(v for v in x)', 'iter', helper=r'__Pyx_Generator_GetInlinedResult'),
+    S('tuple-genexpr', 'tuple(v * 2 for v in x)', 'iter', helper=None),
+    S('dict-genexpr', 'dict((v, v) for v in x)', 'iter', helper=r'__Pyx_Generator_GetInlinedResult'),
     S('bytes', 'bytes(x)', 'iter', helper=None),
     S('type', 'type(x)', 'obj', helper=r'Py_TYPE'),
     S('callable', 'callable(x)', 'obj', helper=r'__Pyx_PyCallable_Check'),
@@ -286,19 +290,19 @@ SPECS = [
     S('dict.keys-type', 'type(x.keys()).__name__', 'dict', helper=r'__Pyx_PyDict_Keys'),
     S('dict.clear', 'x.clear()', 'dict', helper=r'__Pyx_PyDict_Clear|PyDict_Clear', lit="{1: 'one'}", mutates=True),
     S('dict.copy', 'x.copy()', 'dict', helper=r'PyDict_Copy', lit="{1: 'one'}"),
-    S('dict.contains', 'a in x', 'dict', ['key'], helper=r'PyDict_Contains', lit="{1: 'one', 'a': 2}"),
-    S('dict.notcontains', 'a not in x', 'dict', ['key'], helper=r'PyDict_Contains', lit="{1: 'one', 'a': 2}"),
+    S('dict.contains', 'a in x', 'dict', ['key'], helper=r'__Pyx_PyDict_ContainsTF', lit="{1: 'one', 'a': 2}"),
+    S('dict.notcontains', 'a not in x', 'dict', ['key'], helper=r'__Pyx_PyDict_ContainsTF', lit="{1: 'one', 'a': 2}"),
     S('dict.get-unbound', 'dict.get(x, a, b)', 'dict', ['key', 'obj'], helper=r'__Pyx_PyDict_GetItemDefault'),
     S('dict.pop-unbound', 'dict.pop(x, a)', 'dict', ['key'], helper=r'__Pyx_PyDict_Pop', mutates=True),
     S('dict.update', 'x.update(a)', 'dict', ['iter'], helper=None, mutates=True),
     # ---------------------------------------------------------------- list methods
-    S('list.append', 'x.append(a)', 'list', ['obj'], helper=r'__Pyx_PyList_Append', untyped_helper=r'__Pyx_PyObject_Append',
+    S('list.append', 'x.append(a)', 'list', ['obj'], helper=r'__Pyx_PyList_Append',
       lit='[1, 2, 3]', mutates=True),
     S('list.append-stmt', 'x.append(a)', 'list', ['obj'], helper=r'__Pyx_PyList_Append', untyped_helper=r'__Pyx_PyObject_Append',
       lit='[1, 2, 3]', mutates=True, stmt=True),
     S('list.extend', 'x.extend(a)', 'list', ['iter'], helper=r'__Pyx_PyList_Extend', lit='[1, 2, 3]', mutates=True),
     S('list.pop0', 'x.pop()', 'list', helper=r'__Pyx_PyList_Pop', untyped_helper=r'__Pyx_PyObject_Pop', lit='[1, 2, 3]', mutates=True),
-    S('list.pop1', 'x.pop(a)', 'list', ['index'], helper=r'__Pyx_PyList_PopIndex', untyped_helper=r'__Pyx_PyObject_PopIndex|CallMethod',
+    S('list.pop1', 'x.pop(a)', 'list', ['index'], helper=r'__Pyx_PyList_PopIndex',
       lit='[1, 2, 3]', mutates=True),
     S('list.pop-const', 'x.pop(1)', 'list', helper=r'__Pyx_PyList_PopIndex', untyped_helper=r'__Pyx_PyObject_PopIndex', lit='[1, 2, 3]', mutates=True),
     S('list.pop-neg', 'x.pop(-2)', 'list', helper=r'__Pyx_PyList_PopIndex', untyped_helper=r'__Pyx_PyObject_PopIndex', lit='[1, 2, 3]', mutates=True),
@@ -310,12 +314,12 @@ SPECS = [
     S('list.sort-key', 'x.sort(key=a)', 'list', ['callkey'], helper=None, mutates=True),
     S('list.index', 'x.index(a)', 'list', ['obj'], helper=None, lit='[1, 2, 3]'),
     S('list.count', 'x.count(a)', 'list', ['obj'], helper=None, lit='[1, 2, 1]'),
-    S('list.contains', 'a in x', 'list', ['obj'], helper=r'PySequence_Contains', lit='[1, 2, 3]'),
+    S('list.contains', 'a in x', 'list', ['obj'], helper=None, lit='[1, 2, 3]'),
     S('list.append-unbound', 'list.append(x, a)', 'list', ['obj'], helper=r'__Pyx_PyList_Append', mutates=True),
     S('list.pop-unbound', 'list.pop(x, a)', 'list', ['smallidx'], helper=r'__Pyx_PyList_PopIndex', mutates=True),
     S('list.mul', 'x * a', 'list', ['tinyint'], helper=None),
     S('tuple.mul', 'x * a', 'tuple', ['tinyint'], helper=r'__Pyx_PyTuple_Type_Multiply|PyNumber_Multiply'),
-    S('tuple.contains', 'a in x', 'tuple', ['obj'], helper=r'PySequence_Contains', lit='(1, 2, 3)'),
+    S('tuple.contains', 'a in x', 'tuple', ['obj'], helper=None, lit='(1, 2, 3)'),
     S('tuple-lit.contains', "x in (1, 'a', None)", 'obj', helper=r''),
     # ---------------------------------------------------------------- set methods
     S('set.add', 'x.add(a)', 'set', ['key'], helper=r'PySet_Add', lit='{1, 2}', mutates=True),
@@ -328,7 +332,7 @@ SPECS = [
     S('set.pop', 'x.pop()', 'set', helper=r'PySet_Pop', lit='{1}', mutates=True),
     S('set.clear', 'x.clear()', 'set', helper=r'PySet_Clear', lit='{1, 2}', mutates=True),
     S('set.contains', 'a in x', 'set', ['key'], helper=r'PySet_Contains|__Pyx_PySet_ContainsTF', lit='{1, 2}'),
-    S('frozenset.contains', 'a in x', 'frozenset', ['key'], helper=r'PySet_Contains|__Pyx_PySet_ContainsTF'),
+    S('frozenset.contains', 'a in x', 'frozenset', ['key'], helper=None),
     S('set-lit.contains', "x in {1, 'a', None}", 'obj', helper=r'PySet_Contains|__Pyx_PySet_ContainsTF', recv_pool=['key']),
     S('set.update', 'x.update(a)', 'set', ['iter'], helper=None, mutates=True),
     # ---------------------------------------------------------------- bytearray methods
@@ -339,8 +343,8 @@ SPECS = [
     S('bytearray.extend', 'x.extend(a)', 'bytearray', ['bytesiterable'], helper=r'__Pyx_PyByteArray_Extend', mutates=True),
     S('bytearray.extend-bytes', 'x.extend(a)', 'bytearray', [["b''", "b'xyz'", "b'\\xff'", 'None']], decl_args='bytes a',
       helper=r'__Pyx_PyByteArray_ExtendBytes', mutates=True),
-    S('bytearray.startswith', 'x.startswith(a)', 'bytearray', ['bytesarg'], helper=r'__Pyx_PyBytearray_Tailmatch|__Pyx_PyByteArray_Tailmatch'),
-    S('bytearray.endswith3', 'x.endswith(a, b, c)', 'bytearray', ['bytesarg', 'index', 'index'], helper=r'Tailmatch'),
+    S('bytearray.startswith', 'x.startswith(a)', 'bytearray', ['bytesarg'], helper=None),
+    S('bytearray.endswith3', 'x.endswith(a, b, c)', 'bytearray', ['bytesarg', 'index', 'index'], helper=None),
     # ---------------------------------------------------------------- str methods
     S('str.startswith1', 'x.startswith(a)', 'str', ['strs'], helper=r'__Pyx_PyUnicode_Tailmatch', lit="'hello world'"),
     S('str.endswith1', 'x.endswith(a)', 'str', ['strs'], helper=r'__Pyx_PyUnicode_Tailmatch', lit="'hello world'"),
@@ -358,7 +362,7 @@ SPECS = [
     S('str.rfind3', 'x.rfind(a, b, c)', 'str', ['strs', 'index', 'index'], helper=r'PyUnicode_Find', lit="'hello world'"),
     S('str.count1', 'x.count(a)', 'str', ['strs'], helper=r'PyUnicode_Count', lit="'hello world'"),
     S('str.count3', 'x.count(a, b, c)', 'str', ['strs', 'index', 'index'], helper=r'PyUnicode_Count', lit="'hello world'"),
-    S('str.contains', 'a in x', 'str', ['strs'], helper=r'PyUnicode_Contains', lit="'hello world'"),
+    S('str.contains', 'a in x', 'str', ['strs'], helper=r'__Pyx_PyUnicode_ContainsTF', lit="'hello world'"),
     S('str.join', 'x.join(a)', 'str', ['striter'], helper=r'PyUnicode_Join', lit="', '"),
     S('str.join-genexpr', 'x.join(v for v in a)', 'str', ['striter'], helper=r'PyUnicode_Join', lit="', '"),
     S('str.join-listcomp', 'x.join([v + v for v in a])', 'str', ['striter'], helper=r'PyUnicode_Join', lit="''"),
@@ -376,21 +380,21 @@ SPECS = [
     S('str.encode-latin1', "x.encode('latin-1')", 'str', helper=r'PyUnicode_AsLatin1String|PyUnicode_AsEncodedString'),
     S('str.encode-utf16', "x.encode('UTF-16')", 'str', helper=r'PyUnicode_AsUTF16String|PyUnicode_AsEncodedString'),
     S('str.encode-ascii-ignore', "x.encode('ascii', 'ignore')", 'str', helper=r'PyUnicode_AsEncodedString'),
-    S('str.encode1', 'x.encode(a)', 'str', ['enc'], helper=r'PyUnicode_AsEncodedString', lit="'h\\xe9\\u20ac'"),
-    S('str.encode2', 'x.encode(a, b)', 'str', ['enc', 'errors'], helper=r'PyUnicode_AsEncodedString', lit="'h\\xe9\\u20ac'"),
+    S('str.encode1', 'x.encode(a)', 'str', ['enc'], helper=None, lit="'h\\xe9\\u20ac'"),
+    S('str.encode2', 'x.encode(a, b)', 'str', ['enc', 'errors'], helper=None, lit="'h\\xe9\\u20ac'"),
     S('str.lower', 'x.lower()', 'str', helper=None), S('str.upper', 'x.upper()', 'str', helper=None),
     S('str.strip', 'x.strip()', 'str', helper=None), S('str.format', 'x.format(a)', 'str', ['obj'], helper=None),
     S('str.mod', 'x % a', 'str', ['obj'], helper=r'__Pyx_PyUnicode_FormatSafe|PyUnicode_Format', recv_pool=['fmtstrs']),
     S('str.mul', 'x * a', 'str', ['tinyint'], helper=r'__Pyx_PyUnicode_Type_Multiply|PyNumber_Multiply|__Pyx_PySequence_Multiply'),
-    S('str.eq', 'x == a', 'str', ['strs'], helper=r'__Pyx_PyUnicode_Equals'),
-    S('str.ne', 'x != a', 'str', ['strs'], helper=r'__Pyx_PyUnicode_Equals'),
+    S('str.eq', 'x == a', 'str', ['strs'], helper=r'__Pyx_PyObject_CompareEq_str_object|__Pyx_PyUnicode_Equals'),
+    S('str.ne', 'x != a', 'str', ['strs'], helper=r'__Pyx_PyObject_CompareNe_str_object|__Pyx_PyUnicode_Equals'),
     S('str.concat', 'x + a', 'str', ['strs'], helper=r'__Pyx_PyUnicode_Concat|PyNumber_Add'),
     # Py_UCS4 character predicates
 ] + [S('uchar.%s' % m, 'x.%s()' % m, None, decl='Py_UCS4 x', recv_pool=UCHARS, helper=r'__Pyx_Py_UNICODE_%s|Py_UNICODE_%s' % (m.upper(), m.upper()))
      for m in ('isalnum', 'isalpha', 'isdecimal', 'isdigit', 'islower', 'isnumeric', 'isspace', 'istitle', 'isupper', 'isprintable')] + [
     S('uchar.lower', 'x.lower()', None, decl='Py_UCS4 x', recv_pool=UCHARS, helper=None),
     S('uchar.upper', 'x.upper()', None, decl='Py_UCS4 x', recv_pool=UCHARS, helper=None),
-    S('uchar.in-str', 'x in a', None, ['strs_only'], decl='Py_UCS4 x', recv_pool=UCHARS, helper=r'PyUnicode_Contains|__Pyx_UnicodeContainsUCS4'),
+    S('uchar.in-str', 'x in a', None, ['strs_only'], decl='Py_UCS4 x', recv_pool=UCHARS, helper=None),
     S('uchar.in-lit', "x in 'abc\\xe9\\u20ac'", None, decl='Py_UCS4 x', recv_pool=UCHARS, helper=r''),
     # ---------------------------------------------------------------- bytes methods
     S('bytes.decode0', 'x.decode()', 'bytes', helper=r'__Pyx_decode_bytes|PyUnicode_DecodeUTF8', lit="b'caf\\xc3\\xa9'"),
@@ -398,8 +402,8 @@ SPECS = [
     S('bytes.decode-ascii', "x.decode('ascii')", 'bytes', helper=r'__Pyx_decode_bytes|PyUnicode_DecodeASCII'),
     S('bytes.decode-latin1-ignore', "x.decode('latin-1', 'ignore')", 'bytes', helper=r'__Pyx_decode_bytes'),
     S('bytes.decode-utf16', "x.decode('UTF-16')", 'bytes', helper=r'__Pyx_decode_bytes'),
-    S('bytes.decode1', 'x.decode(a)', 'bytes', ['enc'], helper=r'__Pyx_decode_bytes|PyUnicode_Decode', lit="b'caf\\xc3\\xa9'"),
-    S('bytes.decode2', 'x.decode(a, b)', 'bytes', ['enc', 'errors'], helper=r'__Pyx_decode_bytes|PyUnicode_Decode'),
+    S('bytes.decode1', 'x.decode(a)', 'bytes', ['enc'], helper=None, lit="b'caf\\xc3\\xa9'"),
+    S('bytes.decode2', 'x.decode(a, b)', 'bytes', ['enc', 'errors'], helper=None),
     S('bytes.slice-decode', "x[a:b].decode('utf-8')", 'bytes', ['index', 'index'], helper=r'__Pyx_decode_bytes'),
     S('bytes.slice-decode-start', "x[a:].decode('latin-1')", 'bytes', ['index'], helper=r'__Pyx_decode_bytes'),
     S('bytes.slice-decode-stop', "x[:b].decode('ascii', 'replace')", 'bytes', ['index'], helper=r'__Pyx_decode_bytes', argnames=['b']),
@@ -412,9 +416,9 @@ SPECS = [
     S('bytes.find1', 'x.find(a)', 'bytes', ['bytesarg'], helper=None, lit="b'hello world'"),
     S('bytes.find3', 'x.find(a, b, c)', 'bytes', ['bytesarg', 'index', 'index'], helper=None),
     S('bytes.join', 'x.join(a)', 'bytes', ['bytesiter'], helper=r'__Pyx_PyBytes_Join|_PyBytes_Join|PyBytes_Join', lit="b', '"),
-    S('bytes.contains', 'a in x', 'bytes', ['byteval'], helper=r'__Pyx_BytesContains|PySequence_Contains', lit="b'hello world'"),
-    S('bytes.eq', 'x == a', 'bytes', ['bytesarg'], helper=r'__Pyx_PyBytes_Equals'),
-    S('bytes.getitem', 'x[a]', 'bytes', ['smallidx'], helper=r'__Pyx_PyBytes_GetItemInt|__Pyx_GetItemInt'),
+    S('bytes.contains', 'a in x', 'bytes', ['byteval'], helper=None, lit="b'hello world'"),
+    S('bytes.eq', 'x == a', 'bytes', ['bytesarg'], helper=r'__Pyx_PyObject_CompareEq_bytes_object|__Pyx_PyBytes_Equals'),
+    S('bytes.getitem', 'x[a]', 'bytes', ['smallidx'], helper=None),
 ]
 
 EXTRA_POOLS = {
@@ -560,7 +564,9 @@ def generate(rng, ncases, names=None):
                 combos = choose_cases(rng, recvs, argpools, ncases)
                 cases = [('(%s)' % ''.join(a + ', ' for a in c), tuple(c)) for c in combos]
             helper = spec.helper
-            if tname == 'untyped' and spec.untyped_helper is not None:
+            if tname == 'untyped' and typed_name:
+                # optimisations keyed on the receiver type cannot fire for an untyped receiver; a few shapes have an
+                # optimistic generic helper (x.append(v) as a statement, x.pop(), x.pop(<int>))
                 helper = spec.untyped_helper
             fns.append(Fn(nm, spec, tname, src, cases, helper))
     return fns
